@@ -109,7 +109,20 @@ func execTapeProc(bin, prop, tier string, tape []uint32, single bool) (int, stri
 
 // confirmRace re-runs run r under the race build, shrinks the tape with one
 // process per candidate and writes the replay file.
-func confirmRace(prop string, seed uint64, tier string, r int, raceBin string, single bool) (*violationRec, string) {
+func raceTry(bin, prop, tier string, tape []uint32, single bool, attempts int) (int, string) {
+	code, rep := 0, ""
+	for i := 0; i < attempts; i++ {
+		code, rep, _ = execTapeProc(bin, prop, tier, tape, single)
+		if code == 66 {
+			if _, lib := raceSummary(rep); lib {
+				return code, rep
+			}
+		}
+	}
+	return code, rep
+}
+
+func confirmRace(prop string, seed uint64, tier string, r int, raceBin string, single bool, origReport string) (*violationRec, string) {
 	// the recorded tape comes from the plain binary (same code, same tape)
 	out, err := exec.Command(os.Args[0], "tape", "-prop", prop, "-seed", strconv.FormatUint(seed, 10), "-run", strconv.Itoa(r), "-tier", tier).Output()
 	if err != nil {
@@ -119,9 +132,14 @@ func confirmRace(prop string, seed uint64, tier string, r int, raceBin string, s
 	if json.Unmarshal(out, &tape) != nil {
 		return nil, "cannot parse the tape of run " + strconv.Itoa(r)
 	}
-	code, rep, _ := execTapeProc(raceBin, prop, tier, tape, single)
-	if code != 66 {
-		return nil, fmt.Sprintf("race report of run %d did not reproduce in a fresh process (exit %d)", r, code)
+	// The detector keeps a bounded, randomly evicted access history per word, so a race
+	// between accesses that lie far apart is reported with high but not full probability:
+	// retry. A report is never a false positive, so the worker's own report stands even if
+	// no retry reproduces it.
+	code, rep := raceTry(raceBin, prop, tier, tape, single, 5)
+	confirmed := code == 66
+	if !confirmed {
+		rep = origReport
 	}
 	sum, inLib := raceSummary(rep)
 	if !inLib {
@@ -132,19 +150,19 @@ func confirmRace(prop string, seed uint64, tier string, r int, raceBin string, s
 	// The child dies before it can report its normalised tape, so candidates are kept as given.
 	oracle := func(c []uint32) (*core.Violation, []uint32) {
 		execs++
-		code, rep, _ := execTapeProc(raceBin, prop, tier, c, single)
-		if code == 66 {
-			if _, lib := raceSummary(rep); lib {
-				return &core.Violation{Class: class}, c
-			}
+		if code, _ := raceTry(raceBin, prop, tier, c, single, 2); code == 66 {
+			return &core.Violation{Class: class}, c
 		}
 		return nil, nil
 	}
-	small, _ := core.Shrink(tape, class, oracle, 60, 60*time.Second)
-	code, rep, _ = execTapeProc(raceBin, prop, tier, small, single)
-	if code != 66 {
-		small = tape
-		_, rep, _ = execTapeProc(raceBin, prop, tier, small, single)
+	small := tape
+	if confirmed {
+		small, _ = core.Shrink(tape, class, oracle, 60, 75*time.Second)
+		if code, rep2 := raceTry(raceBin, prop, tier, small, single, 5); code == 66 {
+			rep = rep2
+		} else {
+			small = tape
+		}
 	}
 	sum, _ = raceSummary(rep)
 	// description from the plain binary (trace on); it may or may not violate an oracle too
@@ -166,7 +184,7 @@ func replayRace(rf *replayFile, file string) int {
 		fmt.Printf("REPLAY-DIVERGED: %s not built\n", raceBin)
 		return 2
 	}
-	code, rep, _ := execTapeProc(raceBin, rf.Property, rf.Tier, rf.Tape, true)
+	code, rep := raceTry(raceBin, rf.Property, rf.Tier, rf.Tape, true, 6)
 	if code == 66 {
 		sum, inLib := raceSummary(rep)
 		if inLib {
